@@ -578,6 +578,45 @@ impl Property for C12 {
         (ccfg_strategy(), vec(cop_strategy(), 1..n)).prop_map(|(cfg, ops)| CCase { cfg, ops }).boxed()
     }
 
+    /// byte-driven twin of `ccfg_strategy` / `cop_strategy` (same value sets and weights), see bytegen.rs
+    fn fuzz_case(&self, data: &[u8]) -> Option<CCase> {
+        use crate::bytegen::Cur;
+        if data.len() < 5 {
+            return None;
+        }
+        let mut h = Cur::new(&data[..4]);
+        let cfg = CCfg { v5: h.prob(0.5), offline: h.below(4) as u8, connect_timeout_zero: h.prob(0.15), keep_alive: h.wpick(&[(3, None), (1, Some(0u16)), (1, Some(65535u16))]) };
+        let mut c = Cur::new(&data[4..]);
+        let mut ops = Vec::new();
+        while !c.exhausted() && ops.len() < 149 {
+            let arm = c.weighted(&[6, 4, 4, 1, 3, 5, 2, 1, 4, 6, 6, 2, 1, 2, 1, 6, 1, 3]).unwrap_or(0);
+            ops.push(match arm {
+                0 => COp::Start,
+                1 => COp::Stop,
+                2 => COp::StopWithDisconnect,
+                3 => COp::Close,
+                4 => COp::Publish { qos: c.below(3) as u8 },
+                5 => COp::ConnectOk,
+                6 => COp::ConnectErr,
+                7 => COp::ConnectTimeout,
+                8 => COp::Timer,
+                9 => COp::Service,
+                10 => COp::WriteAll,
+                11 => COp::WritePartial,
+                12 => COp::WriteErr,
+                13 => COp::ReadEof,
+                14 => COp::ReadErr,
+                15 => COp::Respond { failing_connack: c.prob(0.15) },
+                16 => COp::Garbage,
+                _ => COp::Fair { steps: 1 + c.below(11) as u8 },
+            });
+        }
+        if ops.is_empty() {
+            return None;
+        }
+        Some(CCase { cfg, ops })
+    }
+
     fn check(&self, case: &CCase) -> CaseReport {
         let mut violations = Vec::new();
         let mut sim = CSim::new(&case.cfg);
